@@ -35,7 +35,12 @@ class Worker:
         self.thread = threading.Thread(target=self._run, daemon=True)
 
     def _trace(self, frame, event, arg):
-        if frame.f_code in self.sched.codes:
+        code = frame.f_code
+        if code in self.sched.codes:
+            return self._local
+        if self.sched.names and (
+                code.co_filename.rsplit("/", 1)[-1], code.co_name) \
+                in self.sched.names:
             return self._local
         return None
 
@@ -65,7 +70,10 @@ class Worker:
 
 
 class Scheduler:
-    def __init__(self, functions, step_timeout=10.0):
+    def __init__(self, functions, step_timeout=10.0, names=()):
+        # names: (file base name, function name) pairs - for functions
+        # that cannot be named as objects (methods of local classes)
+        self.names = set(names)
         self.codes = set()
         for f in functions:
             code = getattr(f, "__code__", None)
